@@ -11,7 +11,7 @@ use std::f64::consts::PI;
 
 pub fn monitor() -> Monitor {
   Monitor { id: "C12",
-    rule: "polygons: 3..9 vertices on sorted bearings (gaps in [0.05, 0.95 pi]) around a centre at radius R (convex, inscribed in a small circle) or R x U(0.3,1) (star-shaped), either winding; R drawn per decade from 1e-10 rad to 0.79 rad, query depth matched so that R/cell is in [0.02, 40]; centres uniform, near meridians k.pi/4 (incl. lon ~ 0), near the transition latitude, 1 in 6 inside a polar cap astride lon = 0 or another seam meridian, 1 in 10 with a vertex exactly on a special point of the grid (centre / vertex of a cell of level 0..2), never within R + 0.02 rad of a pole; both exact_solution values. Oracles: no panic / abnormal exit, well formed, every vertex's cell covered, convex & full => 4 vertices + centre inside (half-space margin >= -1e-12), R < 0.3 => cell centres within r + 2 x the largest centre-to-vertex distance of the depth of EVERY containing cone tried (the generation circle and, per edge, a cone of radius < 0.3 centred up to 0.28 rad on the inner side of the edge, i.e. nearly the edge's half-space), Polygon::contains == half-space oracle for points with |margin| > 1e-12 (uniform on the sphere, within 1.5 R, and on the meridian of every vertex +- 0..3 ulps). Interior witnesses missed are information only. Non-trivial = polygon crossing lon = 0, a meridian k.pi/2 or the transition latitude, clockwise winding, R below one cell, or R < 1e-6 rad.",
+    rule: "polygons: 3..9 vertices on sorted bearings (gaps in [0.05, 0.95 pi]) around a centre at radius R (convex, inscribed in a small circle) or R x U(0.3,1) (star-shaped), either winding; R drawn per decade from 1e-10 rad to 0.79 rad, query depth matched so that R/cell is in [0.02, 40]; centres uniform, near meridians k.pi/4 (incl. lon ~ 0), near the transition latitude, 1 in 6 inside a polar cap astride lon = 0 or another seam meridian, 1 in 8 with a vertex exactly on a special point of the grid (centre / vertex of a cell of level 0..2), never within R + 0.02 rad of a pole; both exact_solution values. Oracles: no panic / abnormal exit, well formed, every vertex's cell covered, convex & full => 4 vertices + centre inside (half-space margin >= -1e-12), R < 0.3 => cell centres within r + 2 x the largest centre-to-vertex distance of the depth of EVERY containing cone tried (the generation circle and, per edge, a cone of radius < 0.3 centred up to 0.28 rad on the inner side of the edge, i.e. nearly the edge's half-space), Polygon::contains == half-space oracle for points with |margin| > 1e-12 (uniform on the sphere, within 1.5 R, and on the meridian of every vertex +- 0..3 ulps). Interior witnesses missed are information only. Non-trivial = polygon crossing lon = 0, a meridian k.pi/2 or the transition latitude, clockwise winding, R below one cell, or R < 1e-6 rad.",
     assumptions: &["half-space oracle for convex polygons in a gnomonic chart computed from coordinate differences (refm::convex_margin_acc; relative accuracy ~1e-15 at every polygon size)", "Layer::hash (C01) locates vertices"],
     run, replay }
 }
@@ -39,8 +39,10 @@ pub fn gen_poly(rng: &mut Rng) -> Option<Case> {
   // one polygon in 10 has a vertex that is EXACTLY a special point of the grid (centre or vertex of a cell of level 0..2, as the crate
   // returns them: (k.pi/2, 0), (k.pi/4, +-asin 2/3), ...): the centre is moved to distance R from it and the point becomes a vertex
   let mut special: Option<((f64, f64), f64)> = None;
-  if rng.below(10) == 0 {
-    let k = rng.below(3) as u8; let h = rng.below(n_hash(k)); let ly = nested::get_or_create(k);
+  if rng.below(8) == 0 {
+    // level 0 half of the time (the 12 base-cell centres and their corners are the most special points), fine cells preferred
+    let k = match rng.below(10) { 0..=4 => 0u8, 5..=7 => 1, _ => 2 }; let h = rng.below(n_hash(k)); let ly = nested::get_or_create(k);
+    let fine: Vec<u8> = cands.iter().cloned().filter(|&d| rmax * nside(d) as f64 >= 8.0).collect(); if !fine.is_empty() && rng.below(4) != 0 { depth = *rng.pick(&fine); }
     let sp = if rng.coin() { ly.center(h) } else { ly.vertices(h)[rng.below(4) as usize] };
     if sp.1.abs() + 2.0 * rmax < PI / 2.0 - 0.02 {
       let c = point_at(sp.0, sp.1, rmax, rng.f() * TWO_PI);
